@@ -1,4 +1,5 @@
 pub mod doc;
+pub mod kinds;
 pub mod rel;
 pub mod scan;
 pub mod text;
